@@ -25,7 +25,6 @@ func init() {
 		add(&thorough, q, 2, 2, 3)
 	}
 	add(&quick, 0, 4, 0, 3)
-	thorough = append(thorough, &Job{Pkg: "zzharness", Func: "ZZ_C09_Contiguous", Args: []int64{2, 5, 5, 2}, Bounds: b, Limit: 3000e9})
 	add(&thorough, 1, 0, 1, 3)
 	add(&thorough, 1, 6, 6, 3)
 	Specs["C09"] = &Spec{
